@@ -42,7 +42,9 @@ Record world := mkW {
   w_counter : N                           (* transaction counter *)
 }.
 
-Definition w0 : world := mkW [] [] [] [] 0.
+(* the world before any asset exists; the transaction counter of the genesis block is arbitrary *)
+Definition winit (c : N) : world := mkW [] [] [] [] c.
+Definition w0 : world := winit 0.
 
 Inductive res (A : Type) : Type := Ok (a : A) | Err (e : N).
 Arguments Ok {A} a.
@@ -124,6 +126,16 @@ Definition getParams (a : N) : SM (aparams * N) :=
       end
   end.
 
+(* "Changing keys in an asset": each of the four addresses is replaced unless it is
+   currently the zero address (every test reads its own field, so the order is immaterial) *)
+Definition reconfigure (params cp : aparams) : aparams :=
+  mkP (p_total params) (p_deffrozen params)
+      (if p_manager params =? 0 then p_manager params else p_manager cp)
+      (if p_reserve params =? 0 then p_reserve params else p_reserve cp)
+      (if p_freeze params =? 0 then p_freeze params else p_freeze cp)
+      (if p_clawback params =? 0 then p_clawback params else p_clawback cp)
+      (p_meta params).
+
 (* result value: what the applier writes into ApplyData (ConfigAsset / AssetClosingAmount) *)
 Definition assetConfig (maxassets sender casset : N) (cp : aparams) : SM N :=
   if casset =? 0 then
@@ -155,19 +167,7 @@ Definition assetConfig (maxassets sender casset : N) (cp : aparams) : SM N :=
       deleteAssetParams creator casset ;;;
       ret 0
     else
-      let p1 := if p_manager params =? 0 then params else
-                mkP (p_total params) (p_deffrozen params) (p_manager cp) (p_reserve params)
-                    (p_freeze params) (p_clawback params) (p_meta params) in
-      let p2 := if p_reserve p1 =? 0 then p1 else
-                mkP (p_total p1) (p_deffrozen p1) (p_manager p1) (p_reserve cp)
-                    (p_freeze p1) (p_clawback p1) (p_meta p1) in
-      let p3 := if p_freeze p2 =? 0 then p2 else
-                mkP (p_total p2) (p_deffrozen p2) (p_manager p2) (p_reserve p2)
-                    (p_freeze cp) (p_clawback p2) (p_meta p2) in
-      let p4 := if p_clawback p3 =? 0 then p3 else
-                mkP (p_total p3) (p_deffrozen p3) (p_manager p3) (p_reserve p3)
-                    (p_freeze p3) (p_clawback cp) (p_meta p3) in
-      putAssetParams creator casset p4 ;;;
+      putAssetParams creator casset (reconfigure params cp) ;;;
       ret 0.
 
 Definition takeOut (x a amount : N) (bypass : bool) : SM unit :=
